@@ -255,6 +255,10 @@ func (d *bcDriver) opFunc(c *bcClient, pi int, op bcOp) sched.Op {
 			defer cancel()
 			c.cancel, c.canc, c.canCanc = cancel, false, op.C
 			perr := errors.New("predicate error")
+			if id%2 == 0 {
+				// an error that wraps the context sentinel: it must come back unchanged all the same
+				perr = fmt.Errorf("predicate gave up: %w", context.Canceled)
+			}
 			x.Log(trace.E{"ev": "wcall", "id": id, "xid": xid, "op": op.Op, "k": op.K, "e": op.E, "actor": name})
 			c.cur, c.waitID, c.waitXID = op.Op, id, xid
 			var err error
